@@ -7,7 +7,7 @@ import KaVerif.Model.Arith
            approximate_frac (460-467), precisionify_float (469-471), prettify_frac (473-481),
            default_unit_format (221-222);
            src/ka/units.py      QuantityVector.prettified (143-146);
-           src/ka/types.py      Interval.__str__ (298-299), Instant.__str__ (214-215);
+           src/ka/types.py      Instant.__str__ (214-215);
            src/ka/gui.py        on_key (268-292): execute(..., brackets_for_frac=True) and then
                                 stringify_result(result_box.value, brackets_for_frac=True);
            src/ka/config.py     ConfigProperties.PRECISION (default 6, any int from the config file).
@@ -139,53 +139,6 @@ def effDigits (N : Int) : Nat := if usedPrecision N = 0 then 1 else (usedPrecisi
 /-- `precisionify_float(f)` under the configured precision `N` (any int). -/
 def precisionifyFloat (N : Int) (x : Float) : Except Err Text := fmtG (usedPrecision N) x
 
-/-! ### `repr(float)` — only reached through `Interval.__str__` (print(r) of an interval) -/
-
-def bitsAbs (x : Float) : Nat := x.toBits.toNat % 2 ^ 63
-
-/-- does the decimal `m · 10^k` convert (correctly rounded) to the double |x| ? -/
-def roundTrips (x : Float) (m : Nat) (k : Int) : Bool :=
-  match Num.posRatToBits ((m : Rat) * pow10 k).num.natAbs ((m : Rat) * pow10 k).den with
-  | some b => b == bitsAbs x
-  | none => false
-
-/-- shortest digit string that reads back as the same double (David Gay's mode 0), searched
-    from 1 to 17 digits; among two candidates of the same length the closer one. -/
-def shortestDigits (x : Float) (a : Rat) : Nat → Nat → Nat × Nat × Int
-  | 0, P => let (m, e) := sigDigits P a; (P, m, e)
-  | fuel + 1, P =>
-    let e := floorLog10 a
-    let sc := a * pow10 ((P : Int) - 1 - e)
-    let lo := sc.floor.toNat
-    let hi := lo + 1
-    let k : Int := e - (P : Int) + 1
-    let okLo := roundTrips x lo k
-    let okHi := roundTrips x hi k
-    let norm := fun (m : Nat) => if m = 10 ^ P then (P, 10 ^ (P - 1), e + 1) else (P, m, e)
-    if okLo && okHi then norm (Num.roundHalfEven sc).toNat
-    else if okLo then norm lo
-    else if okHi then norm hi
-    else if P ≥ 17 then (let (m, e) := sigDigits P a; (P, m, e))
-    else shortestDigits x a fuel (P + 1)
-
-/-- `repr(x)` = `float_repr_style 'short'`: exponent notation iff `decpt <= -4 || decpt > 16`;
-    positional results always contain a point (`.0` is appended). -/
-def reprFloat (x : Float) : Text :=
-  if x.isNaN then "nan".toList
-  else if x.isInf then (if signBit x then "-inf".toList else "inf".toList)
-  else if x == 0 then (if signBit x then "-0.0".toList else "0.0".toList)
-  else
-    let q := Num.floatToRat x
-    let a := absRat q
-    let (_, m, e) := shortestDigits x a 17 1
-    let ds := stripZeros (natText m)
-    let body :=
-      if e < -4 ∨ e ≥ 16 then layoutExp ds e
-      else
-        let t := layoutFixed ds e
-        if t.contains '.' then t else t ++ ".0".toList
-    if q < 0 then '-' :: body else body
-
 /-! ### values -/
 
 /-- A displayable result.  `dim` is the exponent vector of a quantity over the base units
@@ -221,12 +174,6 @@ def approximateFrac (N : Int) (q : Rat) : Except Err Text :=
     -- OverflowError from float(f): integer arithmetic fallback
     let whole : Nat := q.num.natAbs / q.den
     .ok ('~' :: ((if q < 0 then ['-'] else []) ++ '1' :: 'e' :: natText ((natText whole).length - 1)))
-
-/-- `str(x)` of a Python number (what f-strings and `print` use). -/
-def pyStrNum : Num → Text
-  | .int n => intText n
-  | .frac q => fracText q
-  | .flt x => reprFloat x
 
 /-- how the number kinds are stringified by `stringify_result` -/
 def stringifyNum (N : Int) (brackets : Bool) : Num → Except Err Text
@@ -270,12 +217,9 @@ def displayNum (N : Int) : Num → Except Err Text
   | .flt x => precisionifyFloat N x
 
 /-- `display_result(r, out, brackets_for_frac, newline=True)` with the default unit format:
-    the text written to `out`, including the final newline.
-    `intervalViaStringify` = false is the tree as it stands (`print(r)` → `Interval.__str__`:
-    bounds through `str()`, floats in full `repr`); true is the proposed repair
-    (fixes/c15-interval-display.diff). -/
-def displayResult (names : List Text) (N : Int) (brackets : Bool) (intervalViaStringify : Bool) :
-    DVal → Except Err Text
+    the text written to `out`, including the final newline (interpret.py:400-441; intervals go
+    through `stringify_result` since fix 120834b). -/
+def displayResult (names : List Text) (N : Int) (brackets : Bool) : DVal → Except Err Text
   | .qty (.frac q) dim => do
     -- print(prettify_frac(mag, brackets), unit, end="") ; print("    (" + approx + " " + unit + ")", end="")
     let u := prettified names dim
@@ -291,11 +235,10 @@ def displayResult (names : List Text) (N : Int) (brackets : Bool) (intervalViaSt
     -- elements through stringify_result(e) with the DEFAULT brackets_for_frac=False
     let ts ← stringifyList names N false xs
     .ok ('{' :: joinWith [',', ' '] ts ++ ['}', '\n'])
-  | .intv a b =>
-    if intervalViaStringify then do
-      let t ← stringify names N false (.intv a b)
-      .ok (t ++ ['\n'])
-    else .ok ('[' :: pyStrNum a ++ ',' :: ' ' :: pyStrNum b ++ [']', '\n'])
+  | .intv a b => do
+    -- print(stringify_result(r)): default brackets_for_frac=False
+    let t ← stringify names N false (.intv a b)
+    .ok (t ++ ['\n'])
   | .str s => .ok (s ++ ['\n'])
   | .inst iso => .ok (iso ++ ['\n'])
 
